@@ -283,3 +283,36 @@ def r7(ctx):
                     ctx.fail(x, 'float-to-int', 'a float (%s) is truncated to %s at line %d in get_closest: distances that differ only by a fraction compare equal' % (
                         src_ty, dst_ty, s.span['line']), s.span)
     ctx.ok(b, 'get_closest: %d casts inspected, none truncates a float' % n)
+
+
+@rule('C20', 'R-C20-8', 'T11 SIBLING (one unit of length in the dictionary module)',
+      'every constant segmentation flag handed to a function of the crate from src/dictionary.rs (the `use_graphemes` parameter of '
+      'CharString::new, edit::distance(s), ...) has the same value: average length, candidate distances and normalisation all count '
+      'the same characters. A site that switches to code points disagrees with its siblings on every entry with a combining mark or CRLF')
+def r8(ctx):
+    sites = []
+    for b in ctx.facts.bodies:
+        if b.file() != 'src/dictionary.rs' or b.span['exp'] or b.path in ctx.facts.inlined_paths:
+            continue
+        ctx.stats['bodies_inspected'].add(b.path)
+        for t in b.terms('call'):
+            cands = ctx.facts.by_path.get(t.callee_res() or '', [])
+            if len(cands) != 1:
+                continue
+            cal = cands[0]
+            for i, a in enumerate(t.args):
+                if cal.var_name(i + 1) != 'use_graphemes':
+                    continue
+                v = core(sym(b, a))
+                if v[0] == 'const' and len(v) > 2 and v[2] in (0, 1):
+                    sites.append((b, t, bool(v[2])))
+    if len(sites) < 2:
+        raise AnchorMissing('constant segmentation flags in src/dictionary.rs (found %d, expected at least the average-length and the get_closest site)' % len(sites))
+    vals = {v for _, _, v in sites}
+    major = max(vals, key=lambda x: sum(1 for s_ in sites if s_[2] == x))
+    for b, t, v in sites:
+        ctx.require(v == major, b, 'segmentation-flag|' + norm_path(b.path).rsplit('::', 1)[-1] + '|' + (t.callee_res() or '').rsplit('::', 1)[-1],
+                    '%s (line %d) segments with use_graphemes = %s like the other sites of the dictionary module' % ((t.callee_res() or '').rsplit('::', 2)[-1], t.span['line'], major),
+                    '%s at line %d is called with use_graphemes = %s while the other %d sites of src/dictionary.rs use %s: lengths and distances are measured in '
+                    'different units (a cluster of several code points counts once at one site and several times at the other)' % (
+                        (t.callee_res() or '').rsplit('::', 2)[-1], t.span['line'], v, len(sites) - 1, major), t.span)
